@@ -4,6 +4,7 @@ import LyModel.XPath.LemmasLexRt
 import LyModel.XPath.LemmasParseA
 import LyModel.XPath.LemmasLexRtA
 import LyModel.XPath.LemmasLexRtT
+import LyModel.XPath.LemmasTight
 /-!
 # C08 — libyang's XPath tokenizer and parser against XPath 1.0 §3
 
@@ -176,6 +177,29 @@ theorem parse_render_tight_roundtrip (e : Expr) (hw : wf e = true) (hh : height 
   · next h =>
     simpa using parse_render_free_roundtrip e hw hh _ (spacing_of_spacingB _ _ _ h) [] (by intro c hc; cases hc)
   · simpa using parse_render_abbrev_roundtrip e hw hh [] (by intro b hb; cases hb) [] (by intro c hc; cases hc)
+
+/-- the single-blank fallback of `renderT` is NEVER taken: on a well-formed expression the tight text is the abbreviated token
+texts with the gaps `tightBs` (`LemmasTight.spacing_tight`: token texts start with no blank and no `:`, `::` stands only after
+an axis name, hence one blank always satisfies `followOk`) -/
+theorem renderT_eq_tight (e : Expr) (hw : wf e = true) : renderT e = renderG (tightBs (atoks e)) e := by
+  unfold renderT
+  rw [LyModel.XPath.LemmasTight.spacing_tight e hw]
+  rfl
+
+/-- every gap of the tight text is empty or ONE blank, and the blank stands exactly where `followOk` fails on the tight rest -/
+theorem tight_gaps : ∀ (ts : List PT), ∀ g ∈ tightBs ts, g = [] ∨ g = [0x20]
+  | [], g, h => by simp [tightBs] at h
+  | t :: ts, g, h => by
+    simp only [tightBs, List.mem_cons] at h
+    rcases h with h | h
+    · rw [h]; split
+      · exact Or.inl rfl
+      · exact Or.inr rfl
+    · exact tight_gaps ts g h
+
+/-- non-vacuity: `count(../a[k='x'])>1` has no blank at all, `a -b` keeps exactly one -/
+example : tightBs (atoks (.bin .sub (.path .ctx [.mk .child (.name none [0x61]) []]) (.path .ctx [.mk .child (.name none [0x62]) []])))
+    = [[0x20], [], []] := by decide
 
 /-- non-vacuity: `/a/@b[. = ../c]` — its abbreviated tokens differ from the canonical ones -/
 private def sampleA : Expr :=
